@@ -18,7 +18,7 @@ PROPERTY = 'C08'
 
 BOUNDS = {
     'quick': 'REAL mode: k<=2 samples with coordinates any reals in [0,1) on ortho457 with resolutions {4, 2.5, 2, 1.7} (grids up to 2x2x4); '
-             'edge-length bound for 9 resolutions x 3 lattices; FP mode (binary64): voxel round trip for every grid size 1<=n<=63 and every 0<=v<n (cvc5)',
+             'edge-length bound for 9 resolutions x 3 lattices and for every (symbolic) resolution in (L/8, L] on ortho457 [+ tric, hex558 thorough]; FP mode (binary64): voxel round trip for every grid size 1<=n<=63 and every 0<=v<n (cvc5)',
     'thorough': 'k<=3 samples, grids up to 3x4x5 incl. triclinic lattice lengths; FP round trip for every n<=511 (cvc5, 8 ranges of n)',
 }
 OUTSIDE = ['grids / sample counts above the bound', 'binary64 rounding of the bin edges np.linspace produces (REAL mode uses exact k/n edges)',
@@ -132,6 +132,50 @@ def edges_job(params):
     return symbolic_job(params, body, None)
 
 
+def resolution_job(params):
+    """Voxel edge bounds for *every* resolution in (L/8, L_min]: the resolution is symbolic; the grid size
+    int(1 + L // resolution) is concretised by forking over its feasible values."""
+    lat = params['lattice']
+    M = pool.lattice_matrices()[lat]
+
+    def body():
+        import gemdat.volume as gv
+        from pymatgen.core import Lattice
+        with Patches() as p:
+            p.np(gv)
+            L = Lattice(M).lengths
+            res = sym_real('resolution', min(L) / 8, min(L), lo_strict=True)
+            try:
+                vol = gv.trajectory_to_volume(_FakeTraj(np.array([[[0.5, 0.25, 0.75]]]), M), resolution=res)
+            except Exception as e:
+                event(f'exception:{type(e).__name__}', detail=str(e)[:200])
+                return
+            dims = tuple(int(v) for v in vol.data.shape)
+            for c in range(3):
+                edge = core.rat(float(L[c])) / dims[c]
+                prove('voxel edge >= resolution (every resolution not exceeding the cell lengths)', edge >= res)
+                prove('voxel edge < 2 x resolution', edge < 2 * res)
+                prove('voxel_size = L / n', abs(float(vol.voxel_size[c]) - float(L[c]) / dims[c]) < 1e-9)
+            prove('the single sample is counted once', core.ssum(np.asarray(vol.data, dtype=object).ravel().tolist()) == 1)
+            sample(dict(lattice=lat, grid=list(dims)))
+
+    return symbolic_job(params, body, resolution_job_replay)
+
+
+def resolution_job_replay(params, inputs):
+    import gemdat.volume as gv
+    from pymatgen.core import Lattice
+    M = pool.lattice_matrices()[params['lattice']]
+    res = float(inputs['resolution'])
+    vol = gv.trajectory_to_volume(_FakeTraj(np.array([[[0.5, 0.25, 0.75]]]), M), resolution=res)
+    L = Lattice(M).lengths
+    for c in range(3):
+        edge = L[c] / vol.data.shape[c]
+        if not (res <= edge * (1 + 1e-12) and edge < 2 * res):
+            return False, f'axis {c}: voxel edge {edge} for resolution {res} (L={L[c]}, n={vol.data.shape[c]})'
+    return int(vol.data.sum()) == 1, 'sample count'
+
+
 # --------------------------------------------------------------------------- FP: voxel <-> fractional round trip
 
 
@@ -168,7 +212,7 @@ def roundtrip_job_replay(params, inputs):
     return int(back[0]) == v, f'n={n} v={v}: round trip gives {int(back[0])}'
 
 
-REPLAYS = dict(density_job=density_job_replay, roundtrip_job=roundtrip_job_replay)
+REPLAYS = dict(density_job=density_job_replay, roundtrip_job=roundtrip_job_replay, resolution_job=resolution_job_replay)
 
 
 def jobs(tier, seed):
@@ -183,6 +227,8 @@ def jobs(tier, seed):
         js.append(dict(name=f'density_k{k}_{lat}_res{r}', fn='density_job', params=dict(k=k, lattice=lat, resolution=r)))
     js.append(dict(name='voxel_edges', fn='edges_job',
                    params=dict(lattices=['ortho457', 'tric', 'hex558'], resolutions=[0.2, 0.3, 0.7, 1.0, 1.3, 1.7, 2.0, 2.5, 3.9])))
+    for lat in (['ortho457'] if tier == 'quick' else ['ortho457', 'tric', 'hex558']):
+        js.append(dict(name=f'resolution_symbolic_{lat}', fn='resolution_job', params=dict(lattice=lat)))
     for lo, hi in rt:
         js.append(dict(name=f'roundtrip_n{lo}_{hi}', fn='roundtrip_job', params=dict(n_lo=lo, n_hi=hi)))
     return js
